@@ -20,6 +20,8 @@ unI = Function('unI', V, INT)
 Bx = Function('Bx', BOOL, V)
 unB = Function('unB', V, BOOL)
 cls = Function('cls', V, INT)
+alen = Function('alen', V, INT)        # len(x) of a value whose static type is unknown (Any)
+truth = Function('truth', V, BOOL)      # bool(x) of a value whose static type is unknown (Any)
 
 # sequences
 slen = Function('len', V, INT)
@@ -87,6 +89,17 @@ def axioms():
     ax('tag_B', ForAll([b], tag(Bx(b)) == TAG_BOOL, patterns=[Bx(b)]))
     ax('unB_none', Not(unB(none)))        # bool(None) is False: a Bool-typed result that is None at run time reads as False
     ax('tag_none', tag(none) == TAG_NONE)
+    # truthiness of a value of unknown static type: by run-time kind (strings and objects: unconstrained)
+    ax('alen_nonneg', ForAll([x], alen(x) >= 0, patterns=[alen(x)]))
+    ax('alen_seq', ForAll([x], Implies(tag(x) == TAG_SEQ, alen(x) == slen(x)), patterns=[alen(x)]))
+    ax('alen_map', ForAll([x], Implies(tag(x) == TAG_MAP, alen(x) == slen(keys(x))), patterns=[alen(x)]))
+    ax('alen_set', ForAll([x], Implies(tag(x) == TAG_SET, alen(x) == slen(elems(x))), patterns=[alen(x)]))
+    ax('truth_none', Not(truth(none)))
+    ax('truth_bool', ForAll([x], Implies(tag(x) == TAG_BOOL, truth(x) == unB(x)), patterns=[truth(x)]))
+    ax('truth_int', ForAll([x], Implies(tag(x) == TAG_INT, truth(x) == (unI(x) != 0)), patterns=[truth(x)]))
+    ax('truth_seq', ForAll([x], Implies(tag(x) == TAG_SEQ, truth(x) == (slen(x) > 0)), patterns=[truth(x)]))
+    ax('truth_map', ForAll([x], Implies(tag(x) == TAG_MAP, truth(x) == (slen(keys(x)) > 0)), patterns=[truth(x)]))
+    ax('truth_set', ForAll([x], Implies(tag(x) == TAG_SET, truth(x) == (slen(elems(x)) > 0)), patterns=[truth(x)]))
     ax('tag_none_inv', ForAll([x], Implies(tag(x) == TAG_NONE, x == none), patterns=[tag(x)]))
 
     # --- sequences
